@@ -144,10 +144,11 @@ def dataflow_part(rep: Report, mods, t: str, rng: random.Random, runner) -> int:
     # the variables may or may not be needed afterwards: both returned, or only one of them (a value that is read by a test
     # only - tests print what they read - or by nothing must still be the right one)
     items = [(f"dataflow:{key}:{i}", dataflow.program(r)) for i, (key, r) in enumerate(chosen)]
-    items += [(f"dataflow:{key}:{i}:ret-{'ab'[i % 2]}", dataflow.program(r, ret="ab"[i % 2])) for i, (key, r) in enumerate(chosen)]
+    items += [(f"dataflow:{key}:{i}:ret-{'ab'[i % 2]}", dataflow.program(r, ret="ab"[i % 2])) for i, (key, r) in enumerate(chosen)
+              if t != "quick" or key != "random" or i % 2]
     items += [(f"dataflow:{key}:{i}:module:ret-{'ba'[i % 2]}:v{i % 4}",
                dataflow.with_vector(dataflow.program_module(r, ret="ba"[i % 2]), i % 4))
-              for i, (key, r) in enumerate(chosen) if not dataflow.has_return(r["prog"])]
+              for i, (key, r) in enumerate(chosen) if not dataflow.has_return(r["prog"]) and (t != "quick" or key != "random")]
     iso = isolated.run_isolated(items, timeout=120)
     # every program on which the analysis is not on the safe side goes through the rules that consume the analysis
     risky = [(f"dataflow-miss:{'+'.join(sorted(m))}:{form}:{i}", r, form) for i, (r, m) in enumerate(zip(recs, misses)) if m
